@@ -230,6 +230,14 @@ def cli_part(chk):
         expect("abandoned after 1 of 3 invocations", ["-D", "c.yaml"], 1, script={"by_key": {"Ba:2": {"rc": 0, "out": "garbage\n"}}})
         expect("output with braces and a failure", ["-D", "c.yaml"], 1, script={"by_key": {"Ba": {"rc": 2, "out": "{x} {0} }{ {ind}\n"}}})
         expect("unparsable output with braces", ["-D", "c.yaml"], 1, script={"by_key": {"Bb": {"rc": 0, "out": "{'a': 1} {ind}{ind}\n"}}})
+        # the status is about recorded INVOCATIONS, not about data points: several data points per invocation and a run that is
+        # abandoned after its first invocation; every invocation recorded although all data points are warm-up
+        three = "".join("Ba: iterations=1 runtime: %dus\n" % (1000 + k) for k in range(4))
+        expect("abandoned after 1 of 3 invocations with four data points each", ["-D", "c.yaml"], 1, raw=ok3,
+               script={"by_key": {"Ba:1": {"rc": 0, "out": three}, "Ba": {"rc": 1, "out": "boom\n"}}})
+        warm = cli_config(d, ["Ba", "Bb"])
+        warm["runs"]["warmup"] = 3
+        expect("everything recorded, all data points warm-up", ["-D", "c.yaml"], 0, raw=warm, script={})
         # env values that are not lists of shell words (an apostrophe), quotes and blanks next to a ~
         quoted = cli_config(d, ["Ba"], extra_suite={"env": {"FLAGS": "it's", "Q": "~/x  'a  b'", "R": 'say "hi'}})
         expect("env values with quotes", ["-D", "c.yaml"], 0, raw=quoted, script={})
